@@ -24,7 +24,7 @@ EXPLANATION = "direct exploration of the real solver; every execution is an exec
 
 
 def budget_s(tier):
-    return 600 if tier == "quick" else 7200
+    return 2400 if tier == "quick" else 10800
 
 
 LEVELS_QUICK = [
